@@ -213,18 +213,20 @@ class Analysis:
     ren = None
     local_ids = frozenset()
 
-    def __init__(self, func, assume=(), quiet=(), inline=None, post=None, depth=0, unsigned_terms=()):
+    def __init__(self, func, assume=(), quiet=(), inline=None, post=None, depth=0, unsigned_terms=(), track=None):
         self.f = func
         self.u = func.unit
         self.quiet = set(quiet)
         self.inline = inline or {}
         self.post = post or {}
         self.depth = depth
+        self.track = track                       # None, or a predicate on variable terms: untracked terms are opaque (slicing)
         self.unsigned = set(unsigned_terms)      # variables known to be of an unsigned type (>= 0 always)
         self.init = []
         for op, a, b in assume:
             self.init += cons(op, a, b)
         self.visits = {}
+        self.deadline = None
         self.defs = {}            # quotient variable -> its defining constraints (k*q <= a <= k*q + k - 1)
         self.heads = self._loop_heads()
         self.solver = None
@@ -353,6 +355,14 @@ class Analysis:
                 return None
             if c == "DeclRefExpr" and e.decl.get("kind") == "func":
                 return None
+            if self.track is not None and not self.track(n):
+                return None
+            t = self._ty(e.ty)
+            if t.get("kind") == "ptr" and (self._ty(t.get("pointee", "")).get("size") or 0) != 1:
+                # only byte pointers take part in arithmetic here; carrying equalities between other pointers costs much and proves nothing
+                return None
+            if t.get("kind") not in INT_KINDS and t.get("kind") != "ptr":
+                return None
             if self._is_unsigned(e.ty):
                 self.unsigned.add(n)
             return Lin.var(n)
@@ -404,6 +414,8 @@ class Analysis:
                         return q
             return None
         if c == "CallExpr":
+            if self.track is not None and not self.track(("$ret",)):
+                return None
             return Lin.var(("$ret", self.f.name, e.pos))
         return None
 
@@ -440,11 +452,20 @@ class Analysis:
         return self._kill(cs, pred)
 
     # -- transfer (disjunction-wise) -----------------------------------------------------
+    def _budget(self):
+        import time
+        if self.deadline is None:
+            self.deadline = time.time() + 60
+        elif time.time() > self.deadline:
+            from . import cdb
+            raise cdb.AnalysisBroken("the relational analysis of %s exceeded its time budget (60 s): nothing is claimed" % self.f.name)
+
     def transfer(self, st, e):
         if st is None:
             return None
         if not (e.cls == "CallExpr" or e.is_assign or e.is_incdec):
             return st
+        self._budget()
         out = set()
         for P in st:
             r = self._call(P, e) if e.cls == "CallExpr" else self._assign(P, e)
@@ -732,6 +753,7 @@ class Analysis:
         return h
 
     def join(self, a, b, blk=None):
+        self._budget()
         if a is None:
             return b
         if b is None:
